@@ -72,7 +72,13 @@ type run struct {
 	outReached   chan struct{}
 	outRelease   chan struct{}
 	kick         chan struct{} // wakes the asynchronous context killer
-	onces        [5]sync.Once
+	onces        [8]sync.Once
+
+	// family inflight
+	genHold      chan struct{}
+	redGot       chan struct{}
+	redGo        chan struct{}
+	cancelParked atomic.Uint64 // stamp: the mapper's cancel(err) was seen parked inside core/mr (draining the held generator)
 
 	mapped  []int32 // per item id (atomic)
 	written []int32 // per value id, incremented before the mapper's Write (atomic)
@@ -94,6 +100,7 @@ func newRun(c *kit.Case, id string, p plan) *run {
 	r := &run{c: c, id: id, p: p,
 		abort: make(chan struct{}), stallReached: make(chan struct{}), stallRelease: make(chan struct{}),
 		outReached: make(chan struct{}), outRelease: make(chan struct{}), kick: make(chan struct{}),
+		genHold: make(chan struct{}), redGot: make(chan struct{}), redGo: make(chan struct{}),
 		mapped:  make([]int32, p.Items+1),
 		written: make([]int32, (p.Items+1)*fanStride),
 		reduced: make([]int32, (p.Items+1)*fanStride),
@@ -216,6 +223,9 @@ func (r *run) ufGen(source chan<- int) {
 		if r.point(roleGen, i, phBefore, nil) {
 			return
 		}
+		if r.p.Inflight && i == 1 {
+			r.hold(r.genHold)
+		}
 		select {
 		case source <- i:
 		case <-r.abort:
@@ -250,6 +260,9 @@ func (r *run) mapBody(item int, w mr.Writer[int], cancel func(error)) {
 			atomic.AddInt32(&r.written[v], 1)
 			w.Write(v)
 		}
+	}
+	if r.p.Inflight && item == 0 {
+		r.doCancel("mapper[0]/after-write", cancel, r.newErr("mapper[0]"))
 	}
 	r.point(roleMap, item, phAfter, cancel)
 }
@@ -321,6 +334,10 @@ func (r *run) redBody(pipe <-chan int, w mr.Writer[int], cancel func(error)) {
 				atomic.AddInt32(&r.reduced[v], 1)
 			} else {
 				r.strange.Add(1)
+			}
+			if r.p.Inflight && k == 1 {
+				r.closeOnce(5, r.redGot)
+				r.hold(r.redGo)
 			}
 			if r.point(roleRed, k, phBefore, cancel) {
 				return
